@@ -60,6 +60,16 @@ def direct_split(args):
     k = min(m, n)
     s = np.array(args["s"], dtype=float)
     U, V = haar(rng, m)[:, :k], haar(rng, n)[:k, :]
+    exact = False
+    if args.get("exact"):
+        # signed permutation matrices and dyadic singular values: theta has one entry +-s_j per row and column, and LAPACK
+        # (both drivers) returns the spectrum bit for bit — only then are ties at the cut judged
+        import scipy.linalg
+
+        U = (np.eye(m)[:, rng.permutation(m)[:k]] * rng.choice([-1.0, 1.0], size=k)).astype(complex)
+        V = (np.eye(n)[rng.permutation(n)[:k], :] * rng.choice([-1.0, 1.0], size=(k, 1))).astype(complex)
+        tm = (U * s) @ V
+        exact = all(np.array_equal(scipy.linalg.svd(tm, compute_uv=False, lapack_driver=drv), s) for drv in ("gesdd", "gesvd"))
     theta_mat = (U * s) @ V
     theta = theta_mat.reshape(d0, D0, d1, D2).transpose(0, 2, 1, 3).reshape(d0 * d1, D0, D2)
     p = ranksel.params(args["thr"], args["minb"], args["maxb"], args["mode"])
@@ -100,11 +110,11 @@ def direct_split(args):
     else:
         if s[0] > 0:
             ratios = s / s[0]
-            if np.min(np.abs(ratios - thr)) > 1e-9:  # away from rounding ties
+            if np.min(np.abs(ratios - thr)) > 1e-9 or exact:  # away from rounding ties, or ties that are exact in binary64
                 cnt = int(np.sum(ratios >= thr))
                 want = min(max(min(cnt, maxb), minb), k)
                 if keep != want:
-                    return f"relative mode kept {keep}, rule gives {want}"
+                    return f"relative mode kept {keep}, rule gives {want}" + (f" (spectrum {s.tolist()}, threshold {thr}: values exactly at threshold x largest must be kept)" if exact else "")
     return None
 
 
@@ -215,6 +225,30 @@ def search(ctx):
         if why:
             key = "split-raises" if "raised" in why else "split-direct"
             ctx.violation(key, why, {"oracle": "direct_split", "args": args})
+    for i in range(ctx.scale(60, 600)):
+        # exact ties at the cut (relative mode): flat blocks and dyadic ladders, threshold a power of two
+        d0 = d1 = 2
+        D0, D2 = int(rng.integers(1, 5)), int(rng.integers(1, 5))
+        k = min(d0 * D0, d1 * D2)
+        fam = i % 3
+        if fam == 0:
+            sv = [float(2.0 ** -int(rng.integers(0, 3)))] * k
+            thr = 1.0
+        elif fam == 1:
+            top = float(2.0 ** int(rng.integers(-2, 3)))
+            sv = [top * 2.0 ** -j for j in range(k)]
+            thr = float(2.0 ** -int(rng.integers(0, k)))
+        else:
+            blk = int(rng.integers(1, k + 1))
+            sv = sorted([1.0] + [0.5] * blk + [0.125] * k, reverse=True)[:k]
+            thr = float(rng.choice([0.5, 0.125, 1.0]))
+        args = dict(seed=int(rng.integers(0, 2**31)), d0=d0, d1=d1, D0=D0, D2=D2, s=sv, thr=thr, minb=int(rng.choice([1, 1, 2, 3])),
+                    maxb=int(rng.choice([2, 4, 64])), mode="relative", dyn=bool(rng.random() < 0.5), exact=True)
+        why = direct_split(args)
+        ctx.case(nontrivial_key=("tie", i))
+        ctx.count("direct_split_exact_ties")
+        if why:
+            ctx.violation("split-raises" if "raised" in why else "split-direct", why, {"oracle": "direct_split", "args": args})
     for i in range(ctx.scale(100, 2000)):
         d, L, R = 2, int(rng.integers(1, 5)), int(rng.integers(1, 5))
         k = min(d * L, d * R)
